@@ -264,3 +264,44 @@ pub proof fn lemma_bs_end_unesc(s: Seq<u8>, i: int)
         if w >= 4 { assert(r[3] == s[i + 3]); assert(bs_end(s, i + 3) == bs_end(s, i + 4)); }
     }
 }
+// ---- what json_unescape writes can always be rendered again by json_escape (C03: serializers are total on parsed values) ----
+// appending one complete, renderable character keeps a string renderable
+pub proof fn lemma_escapable_append(a: Seq<u8>, b: Seq<u8>)
+    requires escapable(a), b.len() >= 1, b.len() == cp_width(b[0]), esc_ok(cp_value(b))
+    ensures escapable(a + b)
+    decreases a.len()
+{
+    if a.len() == 0 {
+        assert(a + b =~= b);
+        assert(b.subrange(b.len() as int, b.len() as int) =~= Seq::<u8>::empty());
+        assert(escapable(Seq::<u8>::empty()));
+        assert(escapable(b.subrange(cp_width(b[0]), b.len() as int)));
+        assert(escapable(b));
+    } else {
+        let w = cp_width(a[0]);
+        let t = a.subrange(w, a.len() as int);
+        lemma_escapable_append(t, b);
+        let ab = a + b;
+        assert(ab[0] == a[0]);
+        assert(ab.subrange(w, ab.len() as int) =~= t + b);
+        // the first character of a + b is the first character of a
+        assert(cp_value(ab) == cp_value(a)) by {
+            if w >= 2 { assert(ab[1] == a[1]); }
+            if w >= 3 { assert(ab[2] == a[2]); }
+            if w >= 4 { assert(ab[3] == a[3]); }
+        }
+        assert(escapable(ab.subrange(w, ab.len() as int)));
+        assert(escapable(ab));
+    }
+}
+pub proof fn lemma_escapable_ascii(c: u8)
+    requires c < 0x80, esc_ok(c as u32)
+    ensures seq![c].len() == cp_width(c), cp_value(seq![c]) == c as u32
+{
+}
+pub proof fn lemma_escapable_utf8(v: u32)
+    requires v <= 0xFFFF, !(0xD800 <= v <= 0xDFFF)
+    ensures utf8_bytes(v).len() >= 1, utf8_bytes(v).len() == cp_width(utf8_bytes(v)[0]), esc_ok(cp_value(utf8_bytes(v)))
+{
+    lemma_utf8_roundtrip(v);
+}
